@@ -73,7 +73,11 @@ _PLAIN = ['a', 'b', 'a', 'b', 'ab', 'S', '_', 'é']
 _SPECIAL_NAKED = ['@', '[', ']', '#', '#', '\\', '\\', '=', ':', '|', '(', ')', '{', '}', '!', '&', '-', '<', '>',
                   '&&', '||', '-x', '--', ':>', '<<', '@[', ']@', '@[S', 'S]@', '@[]@', '@[S ]@', '@[é]@', '@[SS]@']
 NAKED_ATOMS = _PLAIN * 3 + _SPECIAL_NAKED + REFS * 3
-_QUOTED_EXTRA = [' ', ' ', '  ', '\t', '\n', '\n', 'a\nb', ' # ', ' = ']
+# names of options: inside quotes they are strings like any other ("option-like words"), also at the very place
+# where the option is accepted
+OPTION_NAMES = ['-contents-of', '-stdout-from', '-stderr-from', '-existing-file', '-existing-dir', '-existing-path',
+                '-python', '-transformed-by', '-stdin', '-rel-act', '-rel-home', '-ignore-exit-code']
+_QUOTED_EXTRA = [' ', ' ', '  ', '\t', '\n', '\n', 'a\nb', ' # ', ' = '] + OPTION_NAMES[:6]
 RESERVED = ['(', ')', '[', ']', '{', '}', '=', '|', ':', '!', '&&', '||']
 MARKERS = ['EOF', 'E-O_F', '0', '-', 'eof', 'X1', 'MARKER_']
 
@@ -147,6 +151,7 @@ class _Strategies:
 
 
 _SPECIAL_TOKENS = (
+        [[['h', w]] for w in OPTION_NAMES] + [[['s', w]] for w in OPTION_NAMES[:7]] +
         [[['n', w]] for w in RESERVED] +
         [[['s', w]] for w in RESERVED] + [[['h', w]] for w in RESERVED] +
         [[['n', w], ['s', '']] for w in ['=', ')', '@[L]@', '@[P]@', '@[S]@', ':>', '!', '\\']] +
